@@ -568,3 +568,55 @@ def dot_closure_mcs(rng, n):
         rng.shuffle(parts)
         out.append(("dotmcs|%d" % i, "%s>>%s" % (".".join(parts), b)))
     return [(t, s) for t, s in out if oracle.in_domain_rsmi(s)]
+
+
+CHARGE_PAIRS = [("BrBr", "[Br-].[Br-]"), ("ClCl", "[Cl-].[Cl-]"), ("II", "[I-].[I-]"), ("FF", "[F-].[F-]"),
+                ("O=C1C=CC(=O)C=C1", "[O-]c1ccc([O-])cc1"), ("[Fe+2]", "[Fe+3]"), ("[Cu+]", "[Cu+2]"),
+                ("[Sn+2]", "[Sn+4]"), ("[Ce+3]", "[Ce+4]"), ("CSSC", "C[S-].C[S-]"), ("OO", "[OH-].[OH-]"),
+                ("[Tl+]", "[Tl+3]"), ("N#CC#N", "[C-]#N.[C-]#N"), ("O=O", "[O-][O-]"), ("[Hg+2]", "[Hg+].[Hg+]")
+                if False else ("[Co+2]", "[Co+3]"), ("c1ccc(SSc2ccccc2)cc1", "[S-]c1ccccc1.[S-]c1ccccc1")]
+
+
+def charge_only_imbalance(rng, n):
+    """reactions that are balanced in every element but not in charge (redox half reactions): never balanced,
+    must never be labelled input-balanced or be reported solved as they stand"""
+    spect = ["", "", "CCO", "O", "[Na+].[Cl-]", "CC(=O)O", "c1ccccc1"]
+    out = []
+    for i in range(n):
+        a, b = rng.choice(CHARGE_PAIRS)
+        if rng.random() < 0.5:
+            a, b = b, a
+        sp = rng.choice(spect)
+        l, r = ([a] + ([sp] if sp else [])), ([b] + ([sp] if sp else []))
+        rng.shuffle(l)
+        rng.shuffle(r)
+        rx = "%s>>%s" % (".".join(l), ".".join(r))
+        if oracle.in_domain_rsmi(rx) and oracle.balanced(rx) is False:
+            out.append(("charge_only|%d" % i, rx))
+    return out
+
+
+def completion_prefix_collisions(rng, n):
+    """a small product (water, ammonia, HCl, HBr, methanol ...) is missing on the product side while one of the
+    *given* products - not the first one - is written so that its text starts with that molecule's SMILES
+    ('.OC', '.OCC', '.NC', '.ClC' ...): text-level handling of the appended completion can cut the side there"""
+    base = [("CC(=O)O.OCC>>CC(=O)OCC", "O"), ("CC(=O)Cl.NCC>>CC(=O)NCC", "Cl"), ("CCBr.N>>CCN", "Br"),
+            ("CC=O.NC>>CC=NC", "O"), ("CC(=O)OC.N>>CC(N)=O", "CO"), ("OCC.OCC>>CCOCC", "O"),
+            ("CC(=O)O.NC>>CC(=O)NC", "O"), ("c1ccccc1C(=O)Cl.OC>>c1ccccc1C(=O)OC", "Cl"),
+            ("CCI.[OH-]>>CCO", "[I-]"), ("CC(=O)OC(C)=O.OCC>>CC(=O)OCC", "CC(=O)O")]
+    spect = {"O": ["OC", "OCC", "OCCO", "OC(C)C", "Oc1ccccc1", "OO"], "Cl": ["ClC", "ClCCl", "ClC(Cl)Cl", "Clc1ccccc1"],
+             "Br": ["BrC", "BrCC", "Brc1ccccc1"], "CO": ["COC", "COCC", "COc1ccccc1"], "[I-]": ["[I-].[Na+]"],
+             "CC(=O)O": ["CC(=O)OC", "CC(=O)OCC"]}
+    out = []
+    for i in range(n):
+        rx, missing = rng.choice(base)
+        a, b = rx.split(">>")
+        sp = rng.choice(spect[missing])
+        extra = rng.choice(["", "", "CCN(CC)CC", "c1ccncc1"])
+        left = a.split(".") + [sp] + ([extra] if extra else [])
+        right = b.split(".") + [sp] + ([extra] if extra else [])
+        rng.shuffle(left)
+        if rng.random() < 0.5:
+            right = [right[0]] + rng.sample(right[1:], len(right) - 1)
+        out.append(("prefixcoll|%s|%d" % (missing, i), "%s>>%s" % (".".join(left), ".".join(right))))
+    return [(t, s) for t, s in out if oracle.in_domain_rsmi(s)]
